@@ -42,6 +42,9 @@ VFind(r) ==
     IN  IF cv.v # "accept" THEN Acc                       \* judged by VCompile
         ELSE LET segs == Parse(r.q, FALSE).v
              IN  IF DcSegs(segs, r.doc, reg) THEN Acc
+                 ELSE IF r.out # "ok" /\ r.stage = "compile" THEN
+                     IF r.jp THEN Rej("C03 valid query rejected", <<r.cls>>)
+                     ELSE Rej("C13 compile raised a non-JSONPathError", <<r.cls>>)
                  ELSE IF r.out # "ok" THEN Rej("find raised on a valid query", <<r.cls>>)
                  ELSE LET nl   == Find(segs, r.doc, reg)
                           locs == [k \in 1..Len(nl) |-> nl[k].loc]
